@@ -99,7 +99,8 @@ def check_state(st: Stats, cfg: EnvCfg, env, v, R: frozenset, sol: dict, hist, f
 
 
 def unit(u) -> Stats:
-    n, vs, comp, gap_name, tag, known_extra, seed = u
+    n, vs, comp, gap_name, tag, known_extra, seed = u[:7]
+    budget = u[7] if len(u) > 7 else None
     ftol = 0.0
     games = []
     for v in (vs if isinstance(vs, list) else [vs]):
@@ -108,7 +109,7 @@ def unit(u) -> Stats:
             ftol = max(ftol, gens.float_tol(v, n))
         games.append(tuple(v))
     st = Stats()
-    cfg = EnvCfg(n, games, comp, gap_name, None, tag, ftol, known_extra)
+    cfg = EnvCfg(n, games, comp, gap_name, budget, tag, ftol, known_extra)
     env, script = cfg.make()
     sol = solvers(seed)          # ONE set of solver objects for all episodes (as evaluate() with one process uses them)
     for episode in range(len(games)):
@@ -195,6 +196,11 @@ def run(run: Run) -> None:
                 us.append((4, ("GEN", name, 4, s), SA[(i + 1) % 2], "exploitability", f"gen4:{name}:{s}", triples, seed))
     sam = A.a3_sam()
     us.append((3, sam[(11 * (seed + 1)) % len(sam)], "sam_apx_1", "l1_norm", "sam3", (), seed))
+    # environments with a step budget (done also fires when the budget is used up): the solvers' rules do not change
+    for k, b in enumerate((1, 2, 3)):
+        us.append((3, [A.shifted(pick3[k], A.ADD3), pick3[(k + 3) % len(pick3)]], SA[k % 2], ("l1_norm", "exploitability", "linf_norm")[k], f"exact3-budget{b}",
+                   (), seed, b))
+    us.append((4, A.shifted(pick4[0], A.ADD4), SA[1], "l1_norm", "exact4-budget3", triples, seed, 3))
     big3 = A.shifted(pick3[0], tuple(A.BIG * x for x in (1, -1, 2)))
     us.append((3, [big3, A.scaled(pick3[1], A.TINY)], SA[0], "l1_norm", "exact3-scales", (), seed))
     nonsa = [g for g in A.a3_any() if not A.is_superadditive(g)]
@@ -225,7 +231,8 @@ def replay(doc: dict):
     if doc.get("engine") == "expected-greedy":
         from .c13_expected import replay_expected
         return replay_expected(doc)
-    cfg = EnvCfg(doc["n"], doc["games"], doc["computer"], doc["gap"], None, doc.get("tag", ""), doc.get("float_tol", 0.0), tuple(doc.get("known_extra", ())))
+    cfg = EnvCfg(doc["n"], doc["games"], doc["computer"], doc["gap"], doc.get("budget"), doc.get("tag", ""), doc.get("float_tol", 0.0),
+                 tuple(doc.get("known_extra", ())))
     env, script = cfg.make()
     R = frozenset()
     st = Stats()
